@@ -7,6 +7,7 @@ package media
 import (
 	"errors"
 	"strings"
+	"sync"
 	"sync/atomic"
 	"time"
 
@@ -51,6 +52,8 @@ type Stream struct {
 	consumerSequenceSeed uint32
 	consumptions         consumptions // 消费者列表
 	cache                packCache    // 媒体包缓存
+	rtpJoinLock          sync.Mutex   // 使"缓存+广播"与"回放缓存+加入消费者"互斥，新消费者不丢包也不重包
+	flvJoinLock          sync.Mutex
 	rtpDemuxer           rtpDemuxer
 	flvMuxer             flvMuxer
 	flvConsumptions      consumptions
@@ -207,8 +210,10 @@ func (s *Stream) WriteRtpPacket(packet *rtp.Packet) error {
 
 	atomic.AddUint64(&s.size, uint64(packet.Size()))
 
+	s.rtpJoinLock.Lock()
 	keyframe := s.cache.CachePack(packet)
 	s.consumptions.SendToAll(packet, keyframe)
+	s.rtpJoinLock.Unlock()
 
 	s.rtpDemuxer.WriteRtpPacket(packet)
 	return nil
@@ -234,8 +239,10 @@ func (s *Stream) WriteFlvTag(tag *flv.Tag) error {
 		return statusErrors[status]
 	}
 
+	s.flvJoinLock.Lock()
 	keyframe := s.flvCache.CachePack(tag)
 	s.flvConsumptions.SendToAll(tag, keyframe)
+	s.flvJoinLock.Unlock()
 	return nil
 }
 
@@ -276,15 +283,21 @@ func (s *Stream) startConsume(consumer Consumer, packetType PacketType, extra st
 
 	cs := &s.consumptions
 	cache := s.cache
+	joinLock := &s.rtpJoinLock
 	if packetType == FLVPacket {
 		cs = &s.flvConsumptions
 		cache = s.flvCache
+		joinLock = &s.flvJoinLock
 	}
 
+	// 回放缓存与加入广播列表之间不能插入新的包：否则该包要么丢失（已缓存未广播给它），
+	// 要么重复（既在缓存回放中又被广播）
+	joinLock.Lock()
 	if useGopCache {
 		c.sendGop(cache) // 新消费者，先发送gop缓存
 	}
 	cs.Add(c)
+	joinLock.Unlock()
 	if atomic.LoadInt32(&s.status) != StreamOK {
 		// 流正在或已经关闭（close 先置状态再清理消费者）：自行移除并关闭，
 		// consume 协程随即退出并关闭 consumer
